@@ -433,7 +433,59 @@ pub fn shl(a: &IntV, b: &IntV, ty: ITy, at: &Atoms) -> IntV {
     finish(e, ty, taint, true, at).0
 }
 
+/// x = low + high with low in [0, 2^m) (terms whose coefficient is not a multiple of 2^m, evaluated
+/// under the atom intervals) and high a multiple of 2^m (every coefficient divisible): then
+/// x & (2^m - 1) = low and x >> m = high / 2^m exactly.  This is what follows bit fields
+/// assembled from bytes whose bits are boolean atoms.
+pub fn split_pow2(l: &Lin, m: u32, at: &Atoms) -> Option<(Lin, Lin)> {
+    if l.m != 0 || m >= 100 {
+        return None;
+    }
+    let p = 1i128 << m;
+    let mut low = Lin { m: 0, d: l.d.rem_euclid(p), terms: Vec::new() };
+    let mut high = Lin { m: 0, d: (l.d - low.d) / p, terms: Vec::new() };
+    for (a, c) in l.terms.iter() {
+        if c % p == 0 {
+            high.terms.push((*a, c / p));
+        } else {
+            low.terms.push((*a, *c));
+        }
+    }
+    let (lo, hi) = at.eval_lin(&low)?;
+    if lo < 0 || hi >= p {
+        return None;
+    }
+    Some((low, high))
+}
+
+fn exact_from(l: Lin, ty: ITy, taint: u8, at: &Atoms) -> Option<IntV> {
+    let (lo, hi) = at.eval_lin(&l)?;
+    if lo < ty.min() || hi > ty.max() {
+        return None;
+    }
+    let mut v = IntV::new(lo, hi, ty);
+    v.taint = taint;
+    v.lin = Some(Rc::new(l));
+    Some(v)
+}
+
+/// low `m` bits of a value as an exact form (None when the split rule does not apply)
+pub fn low_bits_exact(a: &IntV, m: u32, ty: ITy, at: &Atoms) -> Option<IntV> {
+    let l = a.lin.as_ref()?;
+    let (low, _) = split_pow2(l, m, at)?;
+    exact_from(low, ty, a.taint, at)
+}
+
 pub fn shr(a: &IntV, b: &IntV, ty: ITy, at: &Atoms) -> IntV {
+    if let (Some(k), Some(l)) = (b.is_const(), a.lin.as_ref()) {
+        if k > 0 && k < 100 && l.m == 0 && !l.terms.is_empty() {
+            if let Some((_, high)) = split_pow2(l, k as u32, at) {
+                if let Some(v) = exact_from(high, ty, a.taint | b.taint, at) {
+                    return v;
+                }
+            }
+        }
+    }
     let taint = a.taint | b.taint;
     let bits = ty.bits as i128;
     if b.lo < 0 || b.hi >= bits.max(8) || b.hi > 126 {
@@ -572,6 +624,22 @@ pub fn bitand(a: &IntV, b: &IntV, ty: ITy) -> IntV {
     IntV::top(ty).with_taint(taint)
 }
 
+/// x & (2^m - 1) through the low/high split of an exact form
+pub fn bitand_split(a: &IntV, b: &IntV, ty: ITy, at: &Atoms) -> Option<IntV> {
+    for (x, y) in [(a, b), (b, a)] {
+        if let Some(mask) = y.is_const() {
+            if mask > 0 && (mask & (mask + 1)) == 0 && x.is_const().is_none() {
+                let m = bitlen(mask);
+                if let Some(mut v) = low_bits_exact(x, m, ty, at) {
+                    v.taint |= y.taint;
+                    return Some(v);
+                }
+            }
+        }
+    }
+    None
+}
+
 pub fn bitor(a: &IntV, b: &IntV, ty: ITy) -> IntV {
     let taint = a.taint | b.taint;
     if let (Some(x), Some(y)) = (a.is_const(), b.is_const()) {
@@ -708,6 +776,11 @@ pub fn cast(a: &IntV, to: ITy, at: &Atoms) -> IntV {
         r.ty = to;
         r.canon = None;
         return r;
+    }
+    if !to.signed && to.bits < 100 {
+        if let Some(v) = low_bits_exact(&a, to.bits as u32, to, at) {
+            return v;
+        }
     }
     let lin = a.lin.as_ref().and_then(|l| if to.bits < 127 { l.modulo(1i128 << to.bits).map(Rc::new) } else { None });
     if let Some(c) = a.is_const() {
